@@ -99,6 +99,26 @@ _Bool vf_slot_begin(int k);
 #define VF_ATOMIC_END(site) ((void)0)
 #endif
 #endif
+#if defined(VF_SEQ) && defined(VF_RACE)
+void vf_race_store(void *p, int o);
+void vf_race_load(void *p, int o);
+void vf_race_rmw(void *p, int o);
+void vf_race_fence(int o);
+void vf_race_spawn(int child);
+void vf_race_join(int child);
+void vf_race_init(void);
+#define VF_ATOMIC_LOAD(site, p, o) vf_race_load((void *)(p), (o))
+#define VF_ATOMIC_STORE(site, p, o) vf_race_store((void *)(p), (o))
+#define VF_ATOMIC_RMW(site, p, o) vf_race_rmw((void *)(p), (o))
+#define VF_FENCE(site, o) (vf_vis_t = vf_tid, vf_race_fence(o))
+#endif
+#if defined(VF_SEQ) && defined(VF_RACE)
+#define VF_RACE_SPAWN(k) vf_race_spawn(k)
+#else
+#define VF_RACE_SPAWN(k) ((void)0)
+#endif
+void vf_race_write(void *p); /* race probes (harness vocabulary); no-ops unless VF_SEQ && VF_RACE */
+void vf_race_read(void *p);
 #ifndef VF_ATOMIC_LOAD
 #define VF_ATOMIC_LOAD(site, p, o) ((void)0)
 #define VF_ATOMIC_STORE(site, p, o) ((void)0)
@@ -209,6 +229,7 @@ void vf_std_thread_join(void *thr);
 void vf_std_thread_detach(void *thr);
 unsigned vf_hw_concurrency(void);
 void vf_std_thread_state_dtor(void *st);
+void vf_std_thread_state_run(void *st);
 void *vf_getenv(void *name);
 uint64_t vf_strtoul(void *s, void *end, int base);
 void vf_block_until(uint32_t *nonzero); /* block the calling thread until *nonzero != 0 */
